@@ -87,7 +87,7 @@ fn printer_run(case: &Case, knobs: &Knobs, strat: &Strategy, printer: &str) -> R
             let res = match strat {
                 Strategy::Slice => searcher.search_slice(&matcher, &case.data, p.sink(&matcher)),
                 Strategy::Reader(h) => searcher.search_reader(&matcher, SimReader::new(&case.data, h, b'\n'), p.sink(&matcher)),
-                Strategy::Path { .. } | Strategy::Special { .. } => unreachable!(),
+                Strategy::Path { .. } | Strategy::File { .. } | Strategy::Special { .. } => unreachable!(),
             };
             let w: SimWriter = $inner(p);
             Ok((w.out, res.map_err(|e| e.to_string())))
